@@ -198,7 +198,15 @@ def make_darr():
     return DictArrayTemplate(["r1", "r2"], ["A", "C", "G"]).wrap([[1, 2, 3], [4, 5, 6]])
 
 
-DIST_OPS = {"take_dists": lambda d: d.take_dists(["a", "c", "d"]), "drop": lambda d: d.take_dists(["b"], negate=True)}
+def _dist_set_cells(d):
+    # in-place edits of single cells (DistanceMatrix.__setitem__ sets that one cell): the matrix is no longer symmetric
+    names = list(d.template.names[0])
+    d[names[-1], names[0]] = 0.9
+    d[names[0], names[1]] = 0.6
+    return d
+
+
+DIST_OPS = {"take_dists": lambda d: d.take_dists(["a", "c", "d"]), "drop": lambda d: d.take_dists(["b"], negate=True), "set_cells": _dist_set_cells}
 DARR_OPS = {"row": lambda d: d[["r2", "r1"]] if False else d.take_dimension(0, ["r2", "r1"]) if hasattr(d, "take_dimension") else d, "to_normalized": lambda d: d.to_normalized(by_row=True)}
 
 
